@@ -252,7 +252,9 @@ def run(ctx):
     if not ctx.quick:
         # smoke pass without scheduler (real threading.Lock objects, 4 free-running threads): decides nothing,
         # its only job is to crash loudly on unsynchronised shared state that cooperative scheduling hides
-        world = L.make_world('free')
+        # journal=None: no on_connect PRAGMA of the harness - executed outside Pony with timeout=0 it fails with a raw
+        # 'database is locked' when it meets another free-running thread's commit, which is not Pony's doing
+        world = tx.World('free', L.define, L.populate, journal=None)
         try: smoke = tx.free_run(world, [L.body_of(BY_NAME[n]) for n in ('rmw_x', 'ry_wx', 'fu_rmw_x', 'rmw_x')], 200)
         finally: world.close()
         ctx.cov['free_running_smoke_pass'] = dict(iterations=200, threads=4, outcome_classes=sorted(smoke), note='not deterministic; decides nothing')
